@@ -1169,11 +1169,11 @@ async fn tcp_exec(
                 }
             }
             TCmd::Split { key } => {
-                if let Some(End::Whole(st)) = ends.remove(&key) {
-                    let (r, w) = st.into_split();
-                    ends.insert(key, End::Split(Some(r), Some(w)));
-                } else if let Some(e) = ends.remove(&key) {
-                    ends.insert(key, e);
+                if matches!(ends.get(&key), Some(End::Whole(_))) {
+                    if let Some(End::Whole(st)) = ends.remove(&key) {
+                        let (r, w) = st.into_split();
+                        ends.insert(key, End::Split(Some(r), Some(w)));
+                    }
                 }
             }
             TCmd::DropStream { key, c, s } => {
@@ -1197,6 +1197,7 @@ async fn tcp_puppet(h: usize, sh: Rc<RefCell<TcpShared>>, nt: Rc<Notify>) -> tur
     let mut ends = BTreeMap::new();
     loop {
         nt.notified().await;
+        rec::emit(json!({"ev":"turn","h":h}));
         let cmds: Vec<TCmd> = sh.borrow_mut().cmds[h].drain(..).collect();
         tcp_exec(h, v6, cmds, &mut listeners, &mut futs, &mut ends).await;
         rec::emit(json!({"ev":"count","h":h,"n":turmoil::established_tcp_stream_count()}));
@@ -1237,6 +1238,21 @@ struct TcpRun<'a> {
     accepted: std::collections::BTreeSet<u64>,
     /// c -> the server puppet's key of the stream accepted for connector c
     srv_key: BTreeMap<u64, String>,
+    /// addresses learned from tracing events: used for the labels of fidelity-level events only
+    trace_src: BTreeMap<u64, String>,
+    /// host index -> ip address (Sim::lookup)
+    host_ip: Vec<String>,
+    /// connectors whose request has left the link (random mode)
+    arrived: std::collections::BTreeSet<u64>,
+    /// same-host connectors in start order, cancelled connectors
+    samehost: Vec<(u64, usize, bool)>, // (c, index of its connect event in the trace, via loopback address)
+    cancelled: Vec<(u64, usize)>,      // (c, index of its cancel event in the trace)
+    /// accepted streams whose origin is not attributed yet: (index in trace, origin, puppet key)
+    unres_accepts: Vec<(usize, String, String)>,
+}
+
+fn addr_ip(a: &str) -> String {
+    a.parse::<SocketAddr>().map(|x| x.ip().to_string()).unwrap_or_default()
 }
 
 /// An in-flight message as Sim::links shows it: the connector's address, the side it travels to.
@@ -1305,7 +1321,14 @@ impl<'a> TcpRun<'a> {
             dead: Default::default(),
             accepted: Default::default(),
             srv_key: BTreeMap::new(),
+            trace_src: BTreeMap::new(),
+            host_ip: Vec::new(),
+            arrived: Default::default(),
+            samehost: Vec::new(),
+            cancelled: Vec::new(),
+            unres_accepts: Vec::new(),
         };
+        r.host_ip = (0..=nh).map(|h| if h == 0 { String::new() } else { r.sim.lookup(hostname(h, nh)).to_string() }).collect();
         r.raw_step();
         rec::take();
         r.trace.push(json!({"ev":"reset"}));
@@ -1320,16 +1343,68 @@ impl<'a> TcpRun<'a> {
     }
 
     /// One Sim::step; folds what was recorded into the model-level trace.
+    ///
+    /// Verdict-level observations come from the public API only: the results of the calls, the
+    /// address of a connector from the SYN that Sim::links shows after its connect (or from
+    /// local_addr() of the established stream), the arrival of a request from the difference of
+    /// two Sim::links snapshots.  turmoil's tracing events only label the `deliver` events of the
+    /// fidelity-level trace; if they are renamed or missing the consequence is drift.
     fn step(&mut self) {
+        let before = self.raw_links();
         self.raw_step();
+        let after = self.raw_links();
         self.last_results.clear();
-        for e in rec::take() {
+        let raw: Vec<Value> = rec::take();
+        // 1. connectors started in this step: their address is the source of the newest SYN of their host
+        for e in &raw {
+            if e["ev"].as_str() == Some("connect") && e["res"].as_str() == Some("pending") {
+                let (c, h) = (e["c"].as_u64().unwrap_or(0), e["h"].as_u64().unwrap_or(0) as usize);
+                if e["dh"].as_u64() == Some(h as u64) {
+                    // no link involved: the address is learned from local_addr()
+                    self.samehost.push((c, usize::MAX, e["lo"].as_bool().unwrap_or(false)));
+                } else if let Some(ip) = self.host_ip.get(h) {
+                    if let Some(m) = after.iter().rev().find(|m| m.kind == "syn" && m.to == 2 && addr_ip(&m.addr) == *ip) {
+                        self.syn_src.insert(c, m.addr.clone());
+                    }
+                }
+            }
+        }
+        // 2. requests that left the link during this step have been handed to their destination host
+        let mut arrivals: Vec<u64> = Vec::new();
+        if self.random {
+            let mut rest: Vec<&RawMsg> = after.iter().filter(|m| m.kind == "syn").collect();
+            for m in before.iter().filter(|m| m.kind == "syn") {
+                if let Some(k) = rest.iter().position(|x| x.addr == m.addr) {
+                    rest.remove(k);
+                } else if let Some(c) = self
+                    .syn_src
+                    .iter()
+                    .filter(|(c, a)| **a == m.addr && !self.arrived.contains(c))
+                    .map(|(c, _)| *c)
+                    .min()
+                {
+                    self.arrived.insert(c);
+                    arrivals.push(c);
+                }
+            }
+        }
+        // 3. fold the recorded events
+        for e in raw {
             let ev = e["ev"].as_str().unwrap_or("").to_string();
             match ev.as_str() {
+                "turn" => {
+                    // deliveries happen at the start of the destination's turn
+                    if e["h"].as_u64() == Some(self.nh as u64) {
+                        for c in arrivals.drain(..) {
+                            self.trace.push(json!({"ev":"syn_arrive","c":c}));
+                        }
+                    }
+                }
                 "t" => {
+                    // fidelity-level labelling only
                     if let (Some(c), Some("Send")) = (self.pending_begin, e["message"].as_str()) {
                         if e["protocol"].as_str() == Some("TCP SYN") {
-                            self.syn_src.insert(c, e["src"].as_str().unwrap_or("").to_string());
+                            self.trace_src.insert(c, e["src"].as_str().unwrap_or("").to_string());
                         }
                     }
                     if self.random && e["message"].as_str() == Some("Delivered") {
@@ -1337,7 +1412,7 @@ impl<'a> TcpRun<'a> {
                         let (src, dst) = (e["src"].as_str().unwrap_or(""), e["dst"].as_str().unwrap_or(""));
                         if proto == "TCP SYN" && self.resolve(src, dst).0 == 0 {
                             if let Some(c) = self.loop_pending.pop_front() {
-                                self.syn_src.insert(c, src.to_string());
+                                self.trace_src.insert(c, src.to_string());
                             }
                         }
                         let (c, to) = self.resolve(src, dst);
@@ -1349,9 +1424,6 @@ impl<'a> TcpRun<'a> {
                                 p => ("data", util::parse_hex_payload(p).unwrap_or_default()),
                             };
                             self.trace.push(json!({"ev":"deliver","c":c,"to":to,"kind":kind,"seq":0,"data":data}));
-                            if kind == "syn" {
-                                self.trace.push(json!({"ev":"syn_arrive","c":c}));
-                            }
                         }
                     }
                 }
@@ -1362,8 +1434,24 @@ impl<'a> TcpRun<'a> {
                     if ev == "connect" {
                         self.pending_begin = None;
                         let c = e["c"].as_u64().unwrap_or(0);
+                        let at = self.trace.len();
+                        if let Some(x) = self.samehost.iter_mut().find(|x| x.0 == c) {
+                            x.1 = at;
+                        }
                         if e["res"].as_str() == Some("pending") && !self.syn_src.contains_key(&c) {
                             self.loop_pending.push_back(c);
+                        }
+                    }
+                    if ev == "poll" && e["res"].as_str() == Some("ok") {
+                        // local_addr() of the established stream names the connector's address
+                        let c = e["c"].as_u64().unwrap_or(0);
+                        let local = e["local"].as_str().unwrap_or("").to_string();
+                        self.syn_src.entry(c).or_insert(local.clone());
+                        if let Some(k) = self.unres_accepts.iter().position(|(_, o, _)| *o == local) {
+                            let (idx, _, key) = self.unres_accepts.remove(k);
+                            self.trace[idx]["c"] = json!(c);
+                            self.accepted.insert(c);
+                            self.srv_key.insert(c, key);
                         }
                     }
                     if let Some(o) = e.get("o").and_then(|v| v.as_str()).map(|s| s.to_string()) {
@@ -1377,15 +1465,20 @@ impl<'a> TcpRun<'a> {
                             .copied()
                             .unwrap_or(0);
                         e["c"] = json!(c);
-                        self.accepted.insert(c);
-                        if let Some(k) = e["key"].as_str() {
-                            self.srv_key.insert(c, k.to_string());
+                        let key = e["key"].as_str().unwrap_or("").to_string();
+                        if c != 0 {
+                            self.accepted.insert(c);
+                            self.srv_key.insert(c, key);
+                        } else {
+                            // a same-host connector that has not looked at its stream yet: resolved when it does
+                            self.unres_accepts.push((self.trace.len(), o, key));
                         }
                     }
                     let cc = e["c"].as_u64().unwrap_or(0);
                     match (ev.as_str(), e["res"].as_str()) {
                         ("cancel", _) => {
                             self.dead.insert(cc);
+                            self.cancelled.push((cc, self.trace.len()));
                         }
                         ("connect", Some(r)) | ("poll", Some(r)) if r != "pending" && r != "ok" => {
                             self.dead.insert(cc);
@@ -1397,7 +1490,36 @@ impl<'a> TcpRun<'a> {
                 }
             }
         }
+        for c in arrivals.drain(..) {
+            self.trace.push(json!({"ev":"syn_arrive","c":c}));
+        }
         self.trace.push(json!({"ev":"step"}));
+    }
+
+    /// End of a run: accepted streams whose connector never looked at its stream (a same-host
+    /// connector abandoned after the accept) are attributed by elimination, in start order.
+    fn finalize(&mut self) {
+        let pending: Vec<(usize, String, String)> = std::mem::take(&mut self.unres_accepts);
+        for (idx, o, key) in pending {
+            // a connector that was waiting when the accept returned and gave up afterwards
+            let lo = o.parse::<SocketAddr>().map(|a| a.ip().is_loopback()).unwrap_or(false);
+            let cand = self
+                .samehost
+                .iter()
+                .filter(|(c, at, l)| {
+                    *l == lo
+                        && *at < idx
+                        && !self.accepted.contains(c)
+                        && (self.cancelled.iter().any(|(x, t)| x == c && *t > idx) || !self.dead.contains(c))
+                })
+                .map(|x| x.0)
+                .next();
+            if let Some(c) = cand {
+                self.trace[idx]["c"] = json!(c);
+                self.accepted.insert(c);
+                self.srv_key.insert(c, key);
+            }
+        }
     }
 
     fn key(&self, c: u64, s: u64) -> String {
@@ -1409,12 +1531,15 @@ impl<'a> TcpRun<'a> {
     }
 
     fn resolve(&self, src: &str, dst: &str) -> (u64, u64) {
-        for (c, a) in &self.syn_src {
-            if a == src {
-                return (*c, 2);
-            }
-            if a == dst {
-                return (*c, 1);
+        for map in [&self.syn_src, &self.trace_src] {
+            // the latest connector that used the address
+            for (c, a) in map.iter().rev() {
+                if a == src {
+                    return (*c, 2);
+                }
+                if a == dst {
+                    return (*c, 1);
+                }
             }
         }
         (0, 0)
@@ -2135,6 +2260,9 @@ fn main_tcp_random(args: &[String]) {
                     run.trace.push(json!({"ev":"quiet"}));
                 }
                 for (c, k) in conns.iter() {
+                    if k.st == "pending" {
+                        run.cmd(k.h, TCmd::Poll { c: *c });
+                    }
                     for s in [1u64, 2u64] {
                         let hh = if s == 1 { k.h } else { nh };
                         let key = run.key(*c, s);
@@ -2152,6 +2280,7 @@ fn main_tcp_random(args: &[String]) {
             if fault_here {
                 nfault += 1;
             }
+            run.finalize();
             (std::mem::take(&mut run.trace), nops, nfault, nreorder)
             });
             match res {
